@@ -334,4 +334,43 @@ fn iter_provided_h<T: 'static>(mutable: bool) {
     core::mem::forget(v);
 }
 
+/// the remaining ways to obtain an iterator: `IntoIterator` for `&AnyVec` / `&mut AnyVec` and the typed views'
+/// `iter` / `iter_mut` / `into_iter` (slice iterators over exactly the `len` elements)
+fn into_iter_h<T: 'static>() {
+    ghost_init();
+    let (len, cap) = sym_state();
+    let mut v = unsafe { mk_vec::<dyn None, T>(0, len, cap, false, true) };
+    reg(&v, 0);
+    {
+        let it = (&v).into_iter();
+        kani::assert(it.index == 0 && it.end == len && it.len() == len, "IntoIterator for &AnyVec covers 0..len");
+    }
+    {
+        let it = (&mut v).into_iter();
+        kani::assert(it.index == 0 && it.end == len && it.len() == len, "IntoIterator for &mut AnyVec covers 0..len");
+    }
+    {
+        let t = v.downcast_ref::<T>().unwrap();
+        let it = t.iter();
+        kani::assert(it.len() == len && off(it.as_slice().as_ptr() as *const u8) == Some(base(0)), "typed iter(): the slice iterator over exactly the len elements");
+        let it = t.into_iter();
+        kani::assert(it.len() == len && off(it.as_slice().as_ptr() as *const u8) == Some(base(0)), "typed view into_iter(): the slice iterator over exactly the len elements");
+    }
+    {
+        let mut t = v.downcast_mut::<T>().unwrap();
+        let it = t.iter_mut();
+        kani::assert(it.len() == len, "typed iter_mut(): exactly len items");
+        let sl = it.into_slice();
+        kani::assert(sl.len() == len && off(sl.as_ptr() as *const u8) == Some(base(0)), "typed iter_mut(): over exactly the len elements");
+        let it = t.into_iter();
+        kani::assert(it.len() == len, "typed view into_iter() (mutable): exactly len items");
+        let sl = it.into_slice();
+        kani::assert(sl.len() == len && off(sl.as_ptr() as *const u8) == Some(base(0)), "typed view into_iter() (mutable): over exactly the len elements");
+    }
+    kani::assert(g().total_destroyed == 0 && g().n_moves == 0 && g().n_clone_calls == 0, "creating iterators owns nothing");
+    kani::cover!(len > 0 && len < cap, "COV partly filled");
+    kani::cover!(true, "REACHED");
+    core::mem::forget(v);
+}
+
 include!("k1_handles.inst.rs");
